@@ -139,6 +139,45 @@ def check_dir(args):
     return len(out), modelled, nontriv, bad, marked
 
 
+def check_layout_order(args):
+    """the layout (ren_position) must apply the reordering exactly when the options say so: order=2 always, order=1 only to lines
+    with a multi-byte character, order=0 never (lines within the lim limit); then the visual order equals the run-reversal model"""
+    import c17
+    exe, order, td, lines, R2L, NEUT = args
+    text = 'opts %d %d 256 1\n' % (order, td) + ''.join('ren %s\n' % (l.encode().hex() or '-') for l in lines)
+    r = common.run([exe], text.encode(), env=common.base_env('/tmp'), timeout=900)
+    out = [l for l in r.out.decode('ascii', 'replace').split('\n') if l][1:]
+    bad = []
+    nontriv = 0
+    for s, o in zip(lines, out):
+        try:
+            g = c17.parse_ren(o)
+        except Exception:
+            bad.append(('probe:parse', 'unparsable ren output', {'line': s}))
+            continue
+        n = len(s)
+        if g['n'] != n or len(g['pos']) != n + 1:
+            continue
+        pos = g['pos'][:n]
+        vis = sorted(range(n), key=lambda i: (pos[i], i))
+        applies = order == 2 or (order == 1 and any(ord(c) > 127 for c in s))
+        ctx = model_ctx(s, td, R2L)
+        exp = model_ord(s, ctx, R2L, NEUT) if applies else list(range(n))
+        if exp is None:
+            continue
+        want = sorted(range(n), key=lambda i: exp[i])
+        # zero-width characters share a column with their neighbour: compare the order of the characters that own cells
+        if [i for i in vis if i < n] != want and len(set(pos)) == n:
+            bad.append(('layout:order', 'line %r order=%d td=%d: characters laid out in the order %s, reordering %s so it should be %s' % (
+                s, order, td, vis, 'applies' if applies else 'does not apply', want), {'line': s, 'hex': s.encode().hex(), 'order': order, 'td': td}))
+        elif want != list(range(n)):
+            nontriv += 1
+    rep = common.san_report(r)
+    if rep:
+        bad.append((rep, 'sanitizer/crash in probe ren (order=%d td=%d): %s' % (order, td, r.err[-400:].decode('latin-1')), {}))
+    return len(out), nontriv, bad
+
+
 # ---- shaping -------------------------------------------------------------------------------
 def presentation_forms():
     """letter -> {form: code point} from Unicode decomposition data"""
@@ -296,6 +335,16 @@ def run(tier, V):
     for r in res:
         for key, what, wit in r[2]:
             V.violation('ren:' + key, what, wit)
+    # layout agrees with the reordering and with the option that switches it on
+    sub2 = lines[::5] + ['abc def, (x)\n', 'ab 12\n', 'x\n', 'a(b)c\n', 'ab\tcd\n']
+    jobs = [(exe, o, td, sub2[i:i + 1500], R2L, NEUT) for o in (0, 1, 2) for td in (-2, -1, 0, 1, 2) for i in range(0, len(sub2), 1500)]
+    res = pmap(check_layout_order, jobs, procs=True)
+    nlay = sum(r[0] for r in res)
+    nontriv += sum(r[1] for r in res)
+    for r in res:
+        for key, what, wit in r[2]:
+            V.violation(key, what, wit)
+    cov['layout_order_checks'] = nlay
     # shaping
     ach = tables.achars()
     if ach is None:
@@ -311,6 +360,12 @@ def run(tier, V):
                 for d1 in dia:
                     for d2 in (dia if tier == 'thorough' else dia[:2]):
                         slines.append(p + d1 + chr(c) + d2 + nx)
+    # every transparent mark on its own (U+064B..U+0655, U+0670, the shadda ligatures), between, before and after joining letters
+    for m in sorted(TRANSPARENT):
+        for c in sorted(letters):
+            for p, nx in (('ب', 'ب'), ('ب', ''), ('', 'ب'), ('ب', 'ا'), ('ا', 'ب')):
+                slines.append(p + chr(c) + chr(m) + nx)
+                slines.append(p + chr(m) + chr(c) + nx)
     for _ in range(400 if tier == 'quick' else 5000):
         slines.append(''.join(R.choice([chr(x) for x in sorted(letters)] + ['ّ', 'َ', '‌', '‍', 'ـ', ' ', 'a', '1', 'é', 'ﺑ', '؟']) for _ in range(R.randint(1, 12))))
     jobs = [(exe, sh, slines[i:i + 3000], letters) for sh in (1, 0) for i in range(0, len(slines), 3000)]
